@@ -99,7 +99,8 @@ def handle (fn : String) (a : Json) : R Json := do
     let sh ← shapeOf a
     let z ← zstdOf (fieldOpt a "zstd")
     let D : Decoders := ⟨fun _ => (fieldOpt a "callDecodes") != some (.bool false),
-                         fun _ => (fieldOpt a "stateDecodes") != some (.bool false)⟩
+                         fun _ => (fieldOpt a "stateDecodes") != some (.bool false),
+                         fun _ => (fieldOpt a "hitTypeDeclared") != some (.bool false)⟩
     let srv : Server := ⟨← natF a "key", ← natF a "ttl"⟩
     let call ← match fieldOpt a "call" with
       | none => pure none
